@@ -119,6 +119,9 @@ fn finish<R: Value>(state: IncrState, log: Log, setters: Vec<Box<dyn Fn(&Bt)>>, 
 fn conv_map<M: MapTy>(m: &M) -> Out {
     Out::Map(m.to_bt())
 }
+fn conv_bt(m: &Bt) -> Out {
+    Out::Map(m.clone())
+}
 fn conv_num(n: &i64) -> Out {
     Out::Num(*n)
 }
@@ -193,6 +196,21 @@ where
                 input.incr_unordered_fold(FOLD_INIT, add, remove, revert)
             };
             finish(state, log, setters, pins, out, o.via, conv_num)
+        }
+        Op::KFold { revert } => {
+            let (la, lr) = (log.clone(), log.clone());
+            let add = move |mut acc: Bt, k: &i32, v: &i32| {
+                push(&la, "add", *k, *v, 0);
+                acc.insert(*k, *v + 100);
+                acc
+            };
+            let remove = move |mut acc: Bt, k: &i32, v: &i32| {
+                push(&lr, "remove", *k, *v, 0);
+                acc.remove(k);
+                acc
+            };
+            let out = input.incr_unordered_fold(Bt::new(), add, remove, revert);
+            finish(state, log, setters, pins, out, o.via, conv_bt)
         }
         Op::CFold { update, revert, initial } => {
             let (la, lr, lu, li) = (log.clone(), log.clone(), log.clone(), log.clone());
